@@ -12,6 +12,12 @@
   under Skip, a partly read nested array) passes over exactly the unread elements — scalars or containers — so the
   value that FOLLOWS the array is the next one the enclosing scope sees (the destructor's skip loop, fix 0b9e4f2;
   before it the reader was left inside the array).
+
+  `binary_scope_session` / `array_binary_element_consumes_one` / `root_binary_value_consumes_one`: a `bin` element opened
+  as a binary scope, of which any number of bytes (all, some, none) is read before the scope is destroyed, is consumed
+  as exactly that one value — the destructor of CMsgPackReadBinaryScope skips the unread bytes — and counts as one
+  element. `open_binary_leaves_other_value`: `OpenBinaryScope` on an element that is NOT a `bin` answers "no", leaves the
+  value in place and does NOT count it (the byte container then loads it through `OpenArrayScope`, which counts it).
 -/
 import BSVerif.Scope.Cursor
 import BSVerif.Props.C03
@@ -85,6 +91,69 @@ theorem array_close_skips_unread (r : Rd) (pre rest : List Tok) (items : List (L
   unfold Rd.rest
   simp only
   rw [h.doc, List.drop_left]
+
+/-! #### binary scopes -/
+
+/-- **a binary scope session**: opened on the `bin` value `bs` the reader stands at, `k ≤ |bs|` byte requests deliver
+    the first `k` bytes and the destruction of the scope — wherever it stands — leaves the reader behind the value,
+    notifies the parent and defers nothing; whatever is requested afterwards (`qs`) goes on from there -/
+theorem binary_scope_session (r : Rd) (bs : List Nat) (rest' : List Tok) (h : r.rest = .bin bs :: rest') (k : Nat)
+    (hk : k ≤ bs.length) (tl : List Scope) (d : Option Err) (qs : List Req) :
+    run ⟨r, .bin bs.length 0 :: tl, d⟩ (List.replicate k .readByte ++ .close :: qs)
+      = (bs.take k).map C03.byteAns ++ .closed :: run ⟨{ r with pos := r.pos + 1 }, notifyParent tl, d⟩ qs := by
+  have hreads := binReads_at h k 0 (Nat.zero_le _)
+  simp only [Nat.zero_add, hk, if_true, List.drop_zero] at hreads
+  rw [C03.binReads_is_machine k bs.length 0 r tl d _ _ hreads (.close :: qs)]
+  simp only [run, step, binClose_at h k hk]
+
+/-- **`OpenBinaryScope` on an array element that is not a `bin`**: "no", and NOTHING changes — the value stays in place
+    and is not counted (`mIndex` unchanged), so the following `OpenArrayScope`/`SerializeValue` finds it as the same element -/
+theorem open_binary_leaves_other_value (r : Rd) (pre v rest : List Tok) (h : At r pre v rest) (t : Tok) (ts : List Tok)
+    (hv : v = t :: ts) (hn : ∀ bs, t ≠ .bin bs) (size index : Nat) (hlt : index < size) (tl : List Scope) (d : Option Err) :
+    step ⟨r, .arr size index :: tl, d⟩ .openBin = (.no, ⟨r, .arr size index :: tl, d⟩) ∧
+    step ⟨r, .root :: tl, d⟩ .openBin = (.no, ⟨r, .root :: tl, d⟩) := by
+  have hrest : r.rest = t :: (ts ++ rest) := by rw [rest_of_at h, hv]; rfl
+  have hne : index ≠ size := by omega
+  simp only [step, checkEnd, hne, if_false, isBinary_other hrest hn, and_self]
+
+/-- **a `bin` element of an array opened as a binary scope and left wherever the caller likes** counts as exactly one
+    element and is passed over as exactly one value -/
+theorem array_binary_element_consumes_one (r : Rd) (pre rest : List Tok) (bs : List Nat) (h : At r pre [.bin bs] rest)
+    (size index : Nat) (hlt : index < size) (k : Nat) (hk : k ≤ bs.length) (tl : List Scope) (d : Option Err) (qs : List Req) :
+    run ⟨r, .arr size index :: tl, d⟩ (.openBin :: (List.replicate k .readByte ++ .close :: qs))
+      = .opened bs.length :: ((bs.take k).map C03.byteAns ++ .closed ::
+          run ⟨{ r with pos := (pre ++ [Tok.bin bs]).length }, .arr size (index + 1) :: tl, d⟩ qs) := by
+  have hrest : r.rest = .bin bs :: rest := by rw [rest_of_at h]; rfl
+  have hne : index ≠ size := by omega
+  have hsess := binary_scope_session r bs rest hrest k hk (.arr size (index + 1) :: tl) d qs
+  have hpos : r.pos + 1 = (pre ++ [Tok.bin bs]).length := by rw [h.pos]; simp
+  simp only [run, step, checkEnd, hne, if_false, isBinary_bin hrest, readBinarySize_bin hrest, hsess, notifyParent, hpos]
+
+/-- the same at the root -/
+theorem root_binary_value_consumes_one (r : Rd) (pre rest : List Tok) (bs : List Nat) (h : At r pre [.bin bs] rest)
+    (k : Nat) (hk : k ≤ bs.length) (tl : List Scope) (d : Option Err) (qs : List Req) :
+    run ⟨r, .root :: tl, d⟩ (.openBin :: (List.replicate k .readByte ++ .close :: qs))
+      = .opened bs.length :: ((bs.take k).map C03.byteAns ++ .closed ::
+          run ⟨{ r with pos := (pre ++ [Tok.bin bs]).length }, .root :: tl, d⟩ qs) := by
+  have hrest : r.rest = .bin bs :: rest := by rw [rest_of_at h]; rfl
+  have hsess := binary_scope_session r bs rest hrest k hk (.root :: tl) d qs
+  have hpos : r.pos + 1 = (pre ++ [Tok.bin bs]).length := by rw [h.pos]; simp
+  simp only [run, step, isBinary_bin hrest, readBinarySize_bin hrest, hsess, notifyParent, hpos]
+
+/-- one byte request past the end of the value is OutOfRange (`CheckEnd`), whatever the policy -/
+theorem binary_read_past_end (r : Rd) (size : Nat) (tl : List Scope) (d : Option Err) :
+    (step ⟨r, .bin size size :: tl, d⟩ .readByte).1 = .err .outOfRange := by
+  simp [step, checkEnd]
+
+/-- non-vacuity: an array of byte containers whose middle element is a string (the scenario of the property text for
+    byte containers): `OpenBinaryScope` answers "no" and leaves it, `OpenArrayScope` skips it by policy and counts it,
+    the third element and the value behind the array load from the right place -/
+example :
+    run (initSt [.arr 3, .bin [1, 2, 3], .str [111], .bin [4, 5], .int 77] .skip)
+        [.openArr, .openBin, .readByte, .readByte, .readByte, .isEnd, .close, .openBin, .openArr, .openBin, .readByte, .readByte, .close,
+         .isEnd, .close, .next .int]
+      = [.opened 3, .opened 3, .val (.byte 1), .val (.byte 2), .val (.byte 3), .flag true, .closed, .no, .no, .opened 2,
+         .val (.byte 4), .val (.byte 5), .closed, .flag true, .closed, .val (.int 77)] := by decide
 
 /-- the skipped elements may be containers: `[1,[2,[3]],{"k":4}]` left after one element, then `7` -/
 example :
